@@ -71,7 +71,7 @@ mpz_remove (mpz_ptr dest, mpz_srcptr src, mpz_srcptr f)
       mpz_set (dest, x);
     }
 
-  pwr = (1 << p) - 1;
+  pwr = ((mp_bitcnt_t) 1 << p) - 1;	/* p can reach 32 and more: not an int shift */
 
   mpz_clear (fpow[p]);
 
@@ -82,7 +82,7 @@ mpz_remove (mpz_ptr dest, mpz_srcptr src, mpz_srcptr f)
       mpz_tdiv_qr (x, rem, dest, fpow[p]);
       if (SIZ (rem) == 0)
 	{
-	  pwr += 1 << p;
+	  pwr += (mp_bitcnt_t) 1 << p;
 	  mpz_set (dest, x);
 	}
       mpz_clear (fpow[p]);
